@@ -26,6 +26,8 @@ THEOREMS = [
     ("QcelVerif.PT.nuclides_resolve", "for all nuclide rows: the label resolves to its own key, E, Z, A, mass; strict mode accepts it iff it is a bare element symbol"),
     ("QcelVerif.PT.nuclides_resolve_anycase", "lower/upper spelling of every nuclide label resolves to the same key (kernel instances of case-insensitivity)"),
     ("QcelVerif.PT.masses_float_nearest", "for all nuclide rows: the model's float(mass) (Dec.toF64 of the decimal text) is the double nearest to the tabulated Decimal, ties to even (independent predicate); the correspondence compares these IEEE bit patterns with the implementation's to_mass()"),
+    ("QcelVerif.PStr.unpack_pack", "unpack (pack s) = s for every byte string of at most 96 bytes: the single-natural encoding of strings used by the table theorems is lossless"),
+    ("QcelVerif.PStr.pack_injective", "pack is injective on such strings (two different labels never share a packed key)"),
     ("QcelVerif.PT.resolve_case_insensitive", "ANY table, ANY two ASCII texts equal after lower-casing resolve identically (all 2^|s| casings)"),
     ("QcelVerif.PT.accessors_case_insensitive", "all seven accessors inherit case-insensitivity"),
     ("QcelVerif.PT.no_wrong_species", "a successful lookup is justified by one of: capitalised text is a nuclide key / int value is a tabulated Z / capitalised text is an element name"),
